@@ -403,6 +403,9 @@ func genC11Case(t *rapid.T) *C11Case {
 			tagFn := rapid.IntRange(0, 2).Draw(t, "tagFn") == 0 && addTagFn(&ty)
 			for j := 0; j < k; j++ {
 				s := &StructCase{Root: desc.Ptr(ty), Val: desc.V{E: []desc.V{g.genValueFor(ty, 0)}}}
+				if tagFn {
+					ev.Class("pool entries on a type whose tag names a rule only some calls define")
+				}
 				if tagFn && rapid.Bool().Draw(t, "bringTagFn") {
 					s.CallFns = []string{"cfn1"}
 				}
